@@ -4,12 +4,13 @@
    what a caller sees at a path).  For every canonical trie and every valid nibble path, of
    any length.  Only the property theorems (Tree_traverse_proofs.v).
    Database level: the read refinement (a store that represents a tree is traversed exactly
-   like the tree) is in Hexary/Refine_read.v when present; "reads at most one database entry
-   per child hop" is observed by the harness with a counting dict. *)
+   like the tree) is in Hexary/Refine_read.v; "reads at most one database entry per child hop" is
+   C08_reads_one_per_hop / C08_reads_only (Hexary/D_reads.v), whose read list the harness compares
+   with the reads counted on the implementation through a proxy database. *)
 From Coq Require Import List NArith Bool Sorted.
 From PyTrie.Base Require Import Bytes Result Nibbles.
 From PyTrie.Base Require Import AMap Rlp.
-From PyTrie.Hexary Require Import Raw Tree TreeTraverse Tree_aux Tree_map Tree_unique Tree_traverse_proofs D D_read Refine_read.
+From PyTrie.Hexary Require Import Raw Tree TreeTraverse Tree_aux Tree_map Tree_unique Tree_traverse_proofs D D_read D_reads Refine_read.
 From PyTrie.Fog Require Import Walk Walk_proofs.
 Import ListNotations.
 
@@ -108,3 +109,23 @@ Theorem C08_traverse_from_refines : forall H, (forall x, length (H x) = 32%nat) 
   fst (traverse_from Walk.BNH (enc H n) seg (plain m r)) = traverse_spec H n seg.
 Proof. exact Walk_proofs.traverse_from_refines. Qed.
 Print Assumptions C08_traverse_from_refines.
+
+(* traverse_from reads at most one database entry per child hop: [traverse_from_reads] lists the keys it
+   looks up (none for a blank or embedded reference, one for a hashed one), for EVERY store, start node and
+   segment ... *)
+Theorem C08_reads_one_per_hop : forall BNH m r raw seg,
+  (length (traverse_from_reads BNH (traverse_fuel seg) raw seg (plain m r))
+   <= traverse_from_hops BNH (traverse_fuel seg) raw seg (plain m r))%nat.
+Proof. exact traverse_from_reads_one_per_hop. Qed.
+Print Assumptions C08_reads_one_per_hop.
+
+(* ... and that list really is everything the traversal reads: on any other database that agrees with this one
+   at the listed keys (e.g. one from which every other entry has been deleted), traverse_from returns the same
+   node / raises the same exception, and looks up the same keys *)
+Theorem C08_reads_only : forall BNH m m' r r' raw seg,
+  (forall h, In h (traverse_from_reads BNH (traverse_fuel seg) raw seg (plain m r)) -> aget m' h = aget m h) ->
+  fst (traverse_from BNH raw seg (plain m' r')) = fst (traverse_from BNH raw seg (plain m r)) /\
+  traverse_from_reads BNH (traverse_fuel seg) raw seg (plain m' r') =
+  traverse_from_reads BNH (traverse_fuel seg) raw seg (plain m r).
+Proof. exact traverse_from_reads_only. Qed.
+Print Assumptions C08_reads_only.
